@@ -2,7 +2,25 @@
 
 package harness
 
-import "github.com/ali-assar/NATS-Leader-Election/leader"
+import (
+	"runtime"
+	"strconv"
+	"strings"
+
+	"github.com/ali-assar/NATS-Leader-Election/leader"
+)
+
+// goid returns the id of the calling goroutine.
+func goid() int64 {
+	var buf [64]byte
+	n := runtime.Stack(buf[:], false) // "goroutine 123 [running]:"
+	f := strings.Fields(string(buf[:n]))
+	if len(f) < 2 {
+		return 0
+	}
+	id, _ := strconv.ParseInt(f[1], 10, 64)
+	return id
+}
 
 // curTracer receives the call-site notes of the library's verif hooks.
 var curTracer *Tracer
@@ -10,7 +28,11 @@ var curTracer *Tracer
 func init() {
 	leader.VerifNote = func(id, site string, val int64) {
 		if tr := curTracer; tr != nil {
-			tr.Emit(id, "note", KV{"name": site, "val": val})
+			kv := KV{"name": site, "val": val, "round": int64(0)}
+			if site == "round_backoff" || site == "round_start" {
+				kv["round"] = goid() // the goroutine of the acquisition round that chose this wait
+			}
+			tr.Emit(id, "note", kv)
 		}
 	}
 }
